@@ -199,6 +199,22 @@ pub struct LargeCase {
     pub n: usize,
     pub m_draw: u16,
     pub cells: Vec<(u16, u16)>,
+    /// Some(offset): place the target at the edge of the band where C(n, m) overflows f64
+    /// (smallest such m plus offset, or its mirror n - m)
+    #[serde(default)]
+    pub overflow_edge: Option<(i8, bool)>,
+}
+
+/// ln C(n, m) by a direct sum of logarithms (harness-side, independent of sfs).
+fn ln_binom(n: usize, m: usize) -> f64 {
+    let m = m.min(n - m);
+    (0..m).map(|i| ((n - i) as f64).ln() - ((i + 1) as f64).ln()).sum()
+}
+
+/// Smallest m with C(n, m) > f64::MAX, if any.
+fn overflow_start(n: usize) -> Option<usize> {
+    let limit = f64::MAX.ln();
+    (1..=n / 2).find(|&m| ln_binom(n, m) > limit)
 }
 
 const EDGES: [usize; 16] = [169, 170, 171, 172, 340, 341, 342, 600, 1028, 1029, 1030, 1031, 1500, 2047, 2048, 2400];
@@ -212,13 +228,24 @@ fn large_strategy(max_n: usize) -> impl Strategy<Value = LargeCase> {
         ],
         prop_oneof![1 => Just(0u16), 1 => Just(u16::MAX), 6 => any::<u16>()],
         prop::collection::vec((any::<u16>(), 1u16..1000), 1..4),
+        prop::option::weighted(0.35, (-4i8..=14, any::<bool>())),
+        1030usize..=2400,
     )
-        .prop_map(move |(n, m_draw, cells)| LargeCase { n: n.min(max_n), m_draw, cells })
+        .prop_map(move |(n, m_draw, cells, overflow_edge, edge_n)| LargeCase {
+            n: if overflow_edge.is_some() { edge_n.min(max_n) } else { n.min(max_n) },
+            m_draw,
+            cells,
+            overflow_edge,
+        })
 }
 
 fn eval_large(_ctx: &Ctx, case: &LargeCase) -> Verdict {
     let n = case.n;
-    let m = 1 + pick_idx(case.m_draw, n); // 1..=n chromosomes
+    let mut m = 1 + pick_idx(case.m_draw, n); // 1..=n chromosomes
+    if let (Some((off, mirror)), Some(start)) = (case.overflow_edge, overflow_start(n)) {
+        let edge = (start as i64 + off as i64).clamp(1, n as i64) as usize;
+        m = if mirror { n - edge.min(n - 1) } else { edge };
+    }
     let mut values = vec![0.0; n + 1];
     let mut ks = Vec::new();
     for (kd, v) in &case.cells {
@@ -246,6 +273,7 @@ fn eval_large(_ctx: &Ctx, case: &LargeCase) -> Verdict {
     ensure!((mass - total).abs() <= 1e-8 * total, "projecting {n} -> {m} chromosomes changed the mass {total} -> {mass}");
     Ok(Pass::new()
         .nontrivial(m < n)
+        .label(if case.overflow_edge.is_some() && n >= 1030 { "target-at-binomial-overflow-edge" } else { "target-generic" })
         .label(if n <= 170 { "n<=170(table)" } else if n < 1030 { "171..1029(ln-gamma)" } else { "n>=1030(beyond f64 binomials)" }))
 }
 
@@ -375,8 +403,8 @@ pub fn check(ctx: &Ctx) -> Check {
         }),
         Box::new(RandomPart {
             name: "large-1d",
-            rule: "one-axis sizes around the implementation's edges (169..172, 340..342, 1028..1031, 2047/2048, up to 2400; thorough up to 6000 chromosomes), sparse inputs, targets 1..n: finite, agrees with the ratio-recurrence oracle to 1e-8, mass preserved; non-trivial = m < n",
-            cases: ctx.tier.pick(48, 400),
+            rule: "one-axis sizes around the implementation's edges (169..172, 340..342, 1028..1031, 2047/2048, up to 2400; thorough up to 6000 chromosomes), sparse inputs, targets 1..n and (35%) targets at the edge of the band where C(n, m) overflows f64: finite, agrees with the ratio-recurrence oracle to 1e-8, mass preserved; non-trivial = m < n",
+            cases: ctx.tier.pick(96, 800),
             strategy: {
                 let max_n = ctx.tier.pick(2400usize, 6000);
                 Box::new(move || large_strategy(max_n).boxed())
